@@ -248,7 +248,8 @@ def rand_tfsf_region(r, name, shape, region, T, faces=None, allow_switch=True):
     box, periodic = [], []
     for a, ax in enumerate("xyz"):
         lo, hi = region[a][0] + 1, region[a][1] - 1
-        wrap = faces is not None and a != axis and faces[f"min_{ax}"]["kind"] in ("periodic", "bloch") and faces[f"max_{ax}"]["kind"] in ("periodic", "bloch")
+        # only plain periodic axes (zero Bloch phase) may be declared wrap axes of a TFSF box: the library refuses phase-shifted ones
+        wrap = faces is not None and a != axis and faces[f"min_{ax}"]["kind"] == "periodic" and faces[f"max_{ax}"]["kind"] == "periodic"
         if wrap and r.uniform() < 0.5:
             periodic.append(a)
             box.append([0, shape[a]])
